@@ -482,6 +482,7 @@ def run(ctx):
 
     # internal forces of a beam (N, M, T results) are read in the axes of the member: the operators they are computed with carry the frame block
     ctx.attempt(_beamops.operator_frame_rule, ctx, _ElemLib(ctx.repo), "R16.18")
+    ctx.attempt(hooke_rule, ctx)
     from ..shared import group_loop_rule as _group_loop_rule
     from . import c14 as _c14
 
@@ -776,3 +777,56 @@ def active_stress_guard_rule(ctx, rid="R16.17"):
                 r.ok(f"{f.qualname}: `{norm_text(n.test)[:50]}` ({'skip' if skips else 'add'} guard) == any(active_stress != 0)")
             else:
                 r.fail(f.qualname, f"active-guard:{norm_text(n.test)[:40]}", f.file, n.lineno, f"{(f.cls.name + '.') if f.cls else ''}{f.name}", f"`{norm_text(n.test)[:60]}` lets the active stress contribute for {verdict} (expected nowhere: False, everywhere: True, partly: True): with an activation field that vanishes in part of the body this site disagrees with the element operator -- the reported stress is not the stress the equilibrium was solved with")
+
+
+def hooke_rule(ctx, rid="R16.19"):
+    """'stress and strain components': the stress a result is read from is Hooke's law AT EACH POINT, sigma[e, p] =
+    C[e, p] eps[e, p], whatever form the stiffness has: one matrix (d, d), one per element (Ne, d, d), one per integration
+    point (Ne, nPg, d, d).  `_Elastic.Calc_Sigma_e_pg` and `Calc_Psi_e_pg` are interpreted (with the finite-element array
+    model) on symbolic strains and stiffnesses, for (Ne, nPg) = (2, 3) and for the coincidences Ne == nPg and Ne == nPg == d."""
+    from ..femchain import XFe, fe_hook_full
+
+    repo = ctx.repo
+    ci = repo.cls("EasyFEA.Models.Elastic._laws._Elastic")
+    fS, fP = ci.methods["Calc_Sigma_e_pg"], ci.methods["Calc_Psi_e_pg"]
+    r = ctx.rule(rid, "Hooke's law per point: Calc_Sigma_e_pg[e, p] == C[e(, p)] eps[e, p] and Calc_Psi_e_pg == 1/2 sigma . eps for a constant, per-element and per-point stiffness, Ne == nPg (== d) included", min_instances=9)
+    d = 3
+    for ne, npg in ((2, 3), (2, 2), (3, 3)):
+        eps = XFe((ne, npg, d), [Poly.var(f"e{e}{p}{i}") for e in range(ne) for p in range(npg) for i in range(d)])
+        for form in ("constant", "per element", "per point"):
+            lead = {"constant": (), "per element": (ne,), "per point": (ne, npg)}[form]
+
+            def cname(e, p, i, j):
+                return {"constant": f"c{i}{j}", "per element": f"c{e}_{i}{j}", "per point": f"c{e}{p}_{i}{j}"}[form]
+
+            import itertools as _it
+
+            C = XArray(lead + (d, d), [Poly.var(cname(*(list(ix[: len(lead)]) + [0] * (2 - len(lead))), ix[-2], ix[-1])) for ix in _it.product(*[range(n) for n in lead + (d, d)])])
+            obj = XObj(ci, {"C": C, "isHeterogeneous": len(lead) > 0})
+            I = Interp(repo, extra_builtins={"Tic": lambda *a, **k: Sink()})
+            I.call_hook = fe_hook_full
+            r.instance(fn=fS.qualname)
+            label = f"{form} stiffness, (Ne, nPg) = ({ne}, {npg})"
+            try:
+                sig = XArray.from_nested(I.call_function(fS, [eps], self_obj=obj))
+                psi = XArray.from_nested(I.call_function(fP, [eps], self_obj=obj))
+            except XRaise as e:
+                r.fail(fS.qualname, f"hooke:{form}:{ne}x{npg}", fS.file, fS.lineno, "_Elastic.Calc_Sigma_e_pg", f"{label}: raises {e}")
+                continue
+            bad = None
+            if sig.shape != (ne, npg, d) or psi.shape != (ne, npg):
+                bad = f"shapes {sig.shape} / {psi.shape}"
+            else:
+                for e in range(ne):
+                    for p in range(npg):
+                        w = [sum((Poly.var(cname(e, p, i, j)) * eps[e, p, j] for j in range(d)), Poly()) for i in range(d)]
+                        for i in range(d):
+                            if bad is None and not is_zero(Poly.of(sig[e, p, i]) - w[i]):
+                                bad = f"sigma[{e}, {p}, {i}] is {sig[e, p, i]!r}, expected {w[i]!r}"
+                        wp = sum((w[i] * eps[e, p, i] for i in range(d)), Poly()) * Q(1, 2)
+                        if bad is None and not is_zero(Poly.of(psi[e, p]) - wp):
+                            bad = f"psi[{e}, {p}] is not 1/2 sigma . eps"
+            if bad:
+                r.fail(fS.qualname, f"hooke:{form}:{ne}x{npg}", fS.file, fS.lineno, "_Elastic.Calc_Sigma_e_pg", f"{label}: {bad}: the stress (and every component / von Mises / energy result read from it) is computed with the stiffness of another element or point")
+            else:
+                r.ok(f"{label}: sigma = C eps and psi = 1/2 sigma . eps at every (e, p)")
